@@ -108,6 +108,8 @@ ida('alloc_free_race', ['ALLOC(0);ALLOC_THEN_FREE();SIGNAL(0)', 'ALLOC_THEN_FREE
 ida('mint_race', ['ALLOC(0);ALLOC(1)', 'ALLOC(0);ALLOC(1)'], extra=['VF_PREFREE=1'])
 ida('three', ['ALLOC(0)', 'ALLOC_ALLOC_FREE_FIRST(0)', 'ALLOC_THEN_FREE()'], tiers=('thorough',))
 S('id_history', 'idalloc/hist.cpp', {'assert': 'C14'}, defs=['VF_K=4'], models=['sc'], bound={'quick': 8, 'thorough': 12})
+# per-thread ids across thread exit / creation (sequential thread generations, two id spaces)
+S('tid_generations', 'idalloc/tid_gen.cpp', {'assert': 'C14'}, models=['sc'], bound=12)
 def box(name, ts, final, extra=(), **kw):
     S('box_' + name, 'idalloc/box.cpp', {'assert': 'C14'}, defs=['VF_T%d=%s' % (i, t) for i, t in enumerate(ts)] + ['VF_FINAL=' + final] + list(extra), **kw)
 box('two_takers', ['TAKE(id0)', 'TAKE(id0)'], 'vf_check(won[0]+won[1]==1, 1); vf_check(val[0]+val[1]==42, 1)')
@@ -164,6 +166,7 @@ ALL3 = 'vf_check(nconsumed==3, 1); { uint64_t m = 0; for (int i = 0; i < 3; ++i)
 ORD12 = '{ int p1 = -1, p2 = -1; for (int i = 0; i < 3; ++i) { if (consumed[i] == 1) p1 = i; if (consumed[i] == 2) p2 = i; } vf_check(p1 < p2, 4); }'
 ALL2 = 'vf_check(nconsumed==2 && consumed[0]+consumed[1]==3 && consumed[0]!=consumed[1], 1);'
 TH = ('thorough',)
+DEV = ('dev',)
 eq('inline_one', ['EXEC(0,1)'], 'vf_check(nconsumed==1 && consumed[0]==1, 1)')
 eq('inline_1x1', ['EXEC(0,1)', 'EXEC(0,2)'], ALL2)
 eq('parked_1x1', ['EXEC(0,1)', 'RUN_PARKED(0)', 'EXEC(0,2)'], ALL2, mode=1)
@@ -178,6 +181,14 @@ eq('inline_two_producers', ['EXEC(0,1);EXEC(1,2)', 'EXEC(0,3)'], ALL3 + ORD12, t
 eq('parked_consumer', ['EXEC(0,1);EXEC(1,2)', 'RUN_PARKED(0)', 'EXEC(0,3)'], ALL3 + ORD12, mode=1, tiers=TH, timeout=3600)
 eq('refused_race', ['EXEC(0,1);EXEC(1,2)', 'EXEC(0,3)'], 'if ((ret[0][1]==0 && ret[1][0]==0)) {' + ALL3 + ORD12 + '}', mode=2, tiers=TH, timeout=3600)
 
+# ----------------------------------------------------------------------------------------------- C17: object pool
+def op(name, t0, t1, cap, inject, auto=False, expect_null=0, **kw):
+    S('op_' + name, 'pagealloc/op.cpp', kw.pop('props', {'assert': 'C17', 'stuck': 'C17'}), defs=['VF_CAP=%d' % cap, 'VF_INJECT=%d' % inject, 'VF_T0=' + t0, 'VF_T1=' + t1, 'VF_EXPECT_NULL=%d' % expect_null] + (['VF_AUTO=1'] if auto else []), **kw)
+op('strict_one_object_two_users', 'POP_USE_RELEASE(0)', 'POP_USE_RELEASE(1)', 2, 1)
+op('auto_overflow_destroyed', 'POP_USE_RELEASE(0)', 'POP_USE_RELEASE(1)', 1, 0, auto=True, tiers=DEV)
+op('auto_prefilled', 'POP_USE_RELEASE(0)', 'POP_USE_RELEASE(1)', 1, 1, auto=True, models=['sc'])
+op('strict_try_pop', 'TRYPOP_USE_RELEASE(0)', 'TRYPOP_USE_RELEASE(1)', 2, 1, expect_null=1, props={'assert': 'C17'})
+
 # ----------------------------------------------------------------------------------------------- C18: hash set histories (sequential)
 HSX = ['babylon/concurrent/transient_hash_table.cpp']
 def hs(name, n, ctor=None, exact=False, **kw):
@@ -190,7 +201,6 @@ hs('sized16_le6', 6, 'Set(16)')
 hs('default_exact34', 34, exact=True)
 hs('sized16_exact34', 34, 'Set(16)', exact=True)
 hs('sized4_le6', 6, 'Set(4)')
-DEV = ('dev',)
 def hsh(name, n1, n2, ctor=None, op=None, **kw):
     S('hs_hist_' + name, 'hashset/hs_hist.cpp', {'assert': 'C18'}, extra=HSX, models=['sc'], bound=100, defs=['VF_N1=%d' % n1, 'VF_N2=%d' % n2] + (['VF_CTOR=' + ctor] if ctor else []) + (['VF_OP=%d' % op] if op is not None else []), **kw)
 for _op, _nm in enumerate(['clear', 'reserve', 'rehash', 'move_ctor', 'move_assign', 'swap']):
@@ -265,6 +275,8 @@ RVX = ['babylon/reusable/memory_resource.cpp', 'babylon/reusable/page_allocator.
 S('rv_ops_k2', 'reusable/rv.cpp', {'assert': 'C12'}, defs=['VF_K=2'], extra=RVX, models=['sc'], bound=10)
 S('rv_ops_k3', 'reusable/rv.cpp', {'assert': 'C12'}, defs=['VF_K=3'], extra=RVX, models=['sc'], bound=10)
 S('rv_ops_k3_prefilled', 'reusable/rv.cpp', {'assert': 'C12'}, defs=['VF_K=2', 'VF_INIT=v->push_back(7); v->push_back(8); v->push_back(9); ref[0]=7; ref[1]=8; ref[2]=9; rn=3'], extra=RVX, models=['sc'], bound=10)
+# nested reusable vector re-created from recorded allocation metadata (the manager's periodic re-creation), workload repeated
+S('rv_meta_recreate_nested', 'reusable/rv_meta.cpp', {'assert': 'C12'}, extra=RVX, models=['sc'], bound=10)
 
 # ----------------------------------------------------------------------------------------------- C19: counters / thread locals (sequential thread generations)
 S('cnt_generations', 'counter/cnt.cpp', {'assert': 'C19'}, extra=['babylon/concurrent/counter.cpp'], models=['sc'], bound=12)
@@ -288,6 +300,11 @@ tpx('steal_vs_owner_1', ['vf_yield()', 'WORKER(0)', 'WORKER(1)'], 'vf_check(ran[
     defs_extra=['VF_STEAL=1', 'VF_INIT_EXTRA=GLOBAL_STOP();GLOBAL_STOP()', 'VF_PRO1=LOCAL_TASK(0)'], opts={'loop:keep_execute': '3', 'loop_reset': '1'})
 tpx('steal_vs_owner_2', ['vf_yield()', 'WORKER(0)', 'WORKER(1)'], 'vf_check(ran[0]==1 && ran[1]==1 && in_pool[0]==1 && in_pool[1]==1, 2)', local=2, tiers=DEV,
     defs_extra=['VF_STEAL=1', 'VF_INIT_EXTRA=GLOBAL_STOP();GLOBAL_STOP()', 'VF_PRO1=LOCAL_TASK(0);LOCAL_TASK(1)'], opts={'loop:keep_execute': '4', 'loop_reset': '1'})
+# cheaper formulation: the second consumer of worker 1's local queue is a harness thread doing the steal loop's pop
+tpx('owner_pop_vs_steal_1', ['vf_yield()', 'WORKER(0)', 'STEAL_ONCE()'], 'vf_check(ran[0]==1, 2)', local=2, props={'assert': 'C07'},
+    defs_extra=['VF_INIT_EXTRA=GLOBAL_STOP()', 'VF_PRO1=LOCAL_TASK(0)'])
+tpx('owner_pop_vs_steal_2', ['vf_yield()', 'WORKER(0)', 'STEAL_ONCE()'], 'vf_check(ran[0]==1 && ran[1]==1, 2)', local=2, tiers=DEV, props={'assert': 'C07'},
+    defs_extra=['VF_INIT_EXTRA=GLOBAL_STOP()', 'VF_PRO1=LOCAL_TASK(0);LOCAL_TASK(1)'], opts={'loop:keep_execute': '6', 'loop_reset': '1'})
 tpx('spawn_child_local', ['SUBMIT_SPAWNING(0,1);STOP_MARKS(1);JOIN(0)', 'WORKER(0)'], 'vf_check(ran[0]==1 && ran[1]==1 && in_pool[1]==1, 2)', local=2, tiers=DEV)
 # (a task that submits a child into the worker's local queue does not converge in the engine yet: formula contradictory, see DESIGN.md open items)
 
@@ -298,6 +315,9 @@ def ser(name, defs, **kw):
 ser('roundtrip_u64', ['VF_ROUNDTRIP=1', 'VF_SHAPE=0'])
 ser('roundtrip_i32_bool', ['VF_ROUNDTRIP=1', 'VF_SHAPE=1'])
 ser('roundtrip_nested', ['VF_ROUNDTRIP=1', 'VF_SHAPE=2'])
+# the same bytes through a ZeroCopyInputStream in symbolic chunk sizes, with / without an enclosing limit
+ser('roundtrip_nested_stream', ['VF_ROUNDTRIP=1', 'VF_SHAPE=2', 'VF_STREAM=3'])
+ser('roundtrip_u64_stream', ['VF_ROUNDTRIP=1', 'VF_SHAPE=0', 'VF_STREAM=2'])
 ser('unknown_field_u64', ['VF_UNKNOWN=1', 'VF_SHAPE=0'])
 ser('unknown_field_nested', ['VF_UNKNOWN=1', 'VF_SHAPE=2'])
 ser('hostile_len4_u64', ['VF_INLEN=4', 'VF_SHAPE=0'], opts={'oob': '1'})
@@ -351,23 +371,23 @@ for _s in ALL:
 LEVEL_TEXT = {
  'C01': 'Real ConcurrentBoundedQueue<two-word payload, VS> IR; client programs of 2-4 threads mixing push/pop/try_/push_n/pop_n/callback variants on capacities 1-2; oracle = exactly-once multiset, per-thread FIFO, fully published payload, try_ success when sequenced after enough completed operations.',
  'C02': 'Same queue scenarios with balanced push/pop counts; STUCK query: can any thread sleep in futex_wait with no later wake (lost wake-up/deadlock) - decided for every interleaving and store-buffer/reordering behaviour of the sc/tso/arm models; spurious wake-ups not relied on. The timed exclusive pop and spin-wait liveness are outside the claim (stated).',
- 'C03': 'Real ConcurrentFixedSwissTable (SSE group loads scalarised) with a harness hasher: two emplaces of one key (one winner, same element) and emplace vs find reading the mapped value (found element fully constructed) under sc/arm; sequential 64-bucket probing agreement between emplace and find/contains/count with prefilled groups and symbolic home group/tag. Growing set, full-table failure and growth races are outside the current scenarios (stated).',
+ 'C03': 'Real ConcurrentFixedSwissTable (SSE group loads scalarised) with a harness hasher: two emplaces of one key (one winner, same element) and emplace vs find reading the mapped value (found element fully constructed) under sc/arm; sequential 64-bucket probing agreement between emplace and find/contains/count with prefilled groups and symbolic home group/tag. Also: two DIFFERENT keys sharing the 7-bit tag and home group racing for one slot (each key one winner, own element, both found; with a prefilled group and with a concurrent lookup), and a full 16-bucket table refusing a symbolic key without consuming the (move-tracking) argument. Growing set and growth races are outside the current scenarios (stated).',
  'C04': 'Real ConcurrentVector<E,0> (block size 1-2) grown by 2 threads: same index => same address, constructed value visible, ctor/dtor balance after destruction, snapshot reader vs grower, gc() vs grower with symbolic clock; RetireList driven directly with a symbolic clock (1024 s windows at 0 and across the 16-bit timestamp wrap): nothing freed < 64 s after retirement.',
  'C05': 'Real anyflow sources (builder, graph, vertex, data, dependency, closure, executor .cpp + headers) with the graph built by the real GraphBuilder during set-up. (a) Sequential whole-pipeline scenarios on the inplace executor: a chain, and a fan-out/fan-in graph with on/unless conditional dependencies, an essential dependency, an unneeded vertex, symbolic inputs / condition / requested-target set, run twice with reset() in between; oracle = a reference demand-driven evaluation (target values, which vertices ran, once, after their dependencies, closure finished rc 0). (b) Concurrent unit scenarios of the dependency counter protocol: graph->run() (activation) on one thread racing with the external publication of the condition and of the target data on two other threads through the real emit()/release() path, for on/unless, condition true/false, one or two dependencies on the same data; the harness executor only records vertex invocations; oracle = exactly one invocation of the dependent vertex, after the condition was evaluated and (if it holds) the target was ready, producers activated at most once / never when not needed. Thread-pool executor, channels, mutable dependencies and >3 threads are outside the scenarios (stated).',
  'C06': 'Sequential mode on the real memory_resource.cpp: concrete prefix up to a page-array boundary, then 2 symbolic (size from an 8-entry boundary table, alignment 1..512) requests with optional destructor registration; oracle: aligned, owned, disjoint, canaries intact, release() returns each page / oversize block once with its size+alignment, destructors once in reverse order, accounting zero, reusable. Shared/swiss variants outside.',
  'C08': 'Real FutureContext<two-word value, VS> / CountDownLatch: set_value vs on_finish (before/after/concurrent) vs get / wait_for(symbolic timeout incl. negative and the 2^16 largest values, symbolic monotone ns clock < 2^16); callbacks once with the value, get returns it, wait_for true => ready, false => time elapsed; STUCK query for get.',
  'C09': 'Real Epoch (x86-64 tick): reader regions (accessor, nested, moved between threads, second slot, released/unlocked accessor) vs unlink+tick+low_water_mark; a reader that still sees the old cell never observes it reclaimed; released/unlocked accessors do not hold the mark back. sc/tso/arm.',
- 'C10': 'Sequential mode on the real keep_reclaim(): 0-2 retires, optional reader region closing at a symbolic back-off sleep, stop marker; every reclaimer exactly once, never while the region is open, before the collector returns; plus a region-enter and a retire injected during the queue intake of the collector (reclaimer move-constructor as re-entrant scheduling hook; plain and wrapped two-part intake): that object is never reclaimed while the region is open. A concurrent collector thread is outside: the three scenarios built for it do not finish within 25 minutes and are not registered.',
+ 'C10': 'Sequential mode on the real keep_reclaim(): 0-2 retires, optional reader region closing at a symbolic back-off sleep, stop marker; every reclaimer exactly once, never while the region is open, before the collector returns; plus a region-enter and a retire injected during the queue intake of the collector (reclaimer move-constructor as re-entrant scheduling hook; plain and wrapped two-part intake): that object is never reclaimed while the region is open. Batch retirement with explicit older epochs (retire(r, epoch)) mixed with ordinary retires, so that one intake batch is not ascending, with a region opened at a symbolic point: exactly once, never early. A concurrent collector thread is outside: the three scenarios built for it do not finish within 25 minutes and are not registered.',
  'C13': 'Real coroutine futex.cpp + DepositBox with hand-made coroutine frames (real await_suspend, resume through the bound executor): wake_one / wake_all / cancel / new waiter races for 2 waiters; each suspension resumed exactly once on its executor, wake_one resumes a non-cancelled waiter if one exists, non-matching value does not suspend. Task/Future awaiters are outside.',
- 'C14': 'Real IdAllocator<uint32_t> (pop vs pop-push-pop ABA, mint race, reuse when free values exist, symbolic alloc/free history of 4 ops vs reference set incl. for_each and end()) and DepositBox (2-3 takers one winner, stale id never matches across slot reuse). Per-thread ids across thread exit are outside.',
+ 'C14': 'Real IdAllocator<uint32_t> (pop vs pop-push-pop ABA, mint race, reuse when free values exist, symbolic alloc/free history of 4 ops vs reference set incl. for_each and end()) and DepositBox (2-3 takers one winner, stale id never matches across slot reuse). ThreadId across three sequential thread generations in two id spaces: stable within a thread, the value of an exited thread is reused with a new version, end() does not grow, for_each reports exactly the live thread. Concurrent thread exit/creation is outside.',
  'C15': 'Real ConcurrentTransientTopic<two-word payload, VS>: publish / publish_n / close vs 1-2 consumers (consume, consume(2)), two publishers; exact sequence then end marker, payload fully visible, STUCK query for consumers. clear()/reuse outside.',
  'C16': 'Real ConcurrentExecutionQueue with a harness Executor (inline / parked consumer): items consumed exactly once, never two consumers at once (plain-access detector), no item stranded once every accepted consumer has run. join() and two sequential items are thorough-tier; concurrent refused-launch races are outside (built, not finishing, not registered; the sequential symbolic refusal schedule covers the refusal logic).',
- 'C17': 'Real CachedPageAllocator over a recording upstream: ownership detector (a page is never held twice / returned upstream twice / returned while held) and conservation upstream_out - upstream_in == held + cached. Object pool, batch/counting allocators outside.',
- 'C18': 'Sequential mode on the real ConcurrentTransientHashSet: default / sized(4,16) construction, N inserts with duplicates (N symbolic <= 6, and exactly 34 to cross two chained tables), then size/empty/iteration/find/contains vs a reference bitmap. clear/reserve/rehash/copy/move/swap histories outside.',
- 'C07': 'Real ThreadPoolExecutor (started with 0 OS threads; a harness thread runs the real keep_execute() worker loop): submit()/execute() of 1-2 tasks, the STOP markers of stop(), join == worker returned; every accepted task ran exactly once on a thread that reports is_running_in(), before the stopper passes its join; STUCK query on the futex-based global queue. Sequential re-entrant scenarios run the real start()/stop()/keep_execute()/keep_balance() with std::thread played by the harness: a task that spawned a child into its local queue is pre-empted while another thread stops the pool and the balance thread performs its last steal pass (local capacity 0/2, balance thread on/off, symbolic spawn): nothing accepted is lost behind the STOP tokens. Work stealing between 2 workers is thorough-tier; concurrent tasks-spawning-tasks and the new-thread executor are outside.',
- 'C11': 'Sequential mode: real babylon serialization traits + BABYLON_COMPATIBLE aggregates over the real protobuf coded-stream inline code, with a model of the out-of-line libprotobuf stream functions (harness/serial/pbmodel.cpp, validated against the real library by native replay of every witness): round trip and predicted size for ALL values of uint64 / int32+bool / nested aggregate, varint wire compatibility with a reference encoder, unknown fields of every wire type skipped, arbitrary input bytes up to 4 (terminates, no read past the input, success => re-serialises and re-parses to itself); a nested aggregate with a payload of 121..132 bytes (symbolic last field) across the one/two-byte length-prefix boundary: predicted size == bytes produced, own output parses back, following field found. Strings, containers, smart pointers, protobuf messages, stream-backed inputs outside.',
- 'C12': 'Sequential mode on the real ReusableVector<uint64_t> over ExclusiveMonotonicBufferResource: 2-3 symbolic operations (push_back, pop_back, insert(pos), erase(pos), resize, clear, assign with symbolic positions/counts) from an empty or 3-element vector, compared after every step with a reference array; size <= constructed_size <= capacity, clear keeps capacity. Strings, nested reusable elements, manager cadence outside.',
- 'C19': 'Sequential thread generations (each generation = a new logical thread after the previous one exited and its thread_local destructors ran; natively replayed on real std::threads): adder/summer exact across thread exit and thread-id reuse, maxer/miner extreme of the period for arbitrary 64-bit inputs, local() stable, for_each vs for_each_alive, a new counter recycling a destroyed one starts from zero; a new CompactEnumerableThreadLocal instance created and used from inside the destructor wipe loop of another instance (default-constructor hook) starts from zero and keeps its contents. Concurrent counting-vs-reading outside.',
+ 'C17': 'Real CachedPageAllocator over a recording upstream: ownership detector (a page is never held twice / returned upstream twice / returned while held) and conservation upstream_out - upstream_in == held + cached. ObjectPool: strict mode with one injected object and two users (pop and try_pop; exclusive holder, recycler once per return, conservation, STUCK: the blocked pop resumes), auto-creating mode with a prefilled pool (created - destroyed == pooled, recycler once per return; sc only). Batch/counting allocators outside.',
+ 'C18': 'Sequential mode on the real ConcurrentTransientHashSet: default / sized(4,16) construction, N inserts with duplicates (N symbolic <= 6, and exactly 34 to cross two chained tables), then size/empty/iteration/find/contains vs a reference bitmap. Plus: a COPY of a set grown to 20 elements / of a sized set; histories of 20 (chained tables) or 5 inserts followed by clear / move-construction / move-assignment over a non-empty set / swap (reserve and rehash of the sized set in the thorough tier) and a further symbolic insert, the moved-from and swapped-with sets checked too. reserve/rehash of a chained set and symbolic insert counts above 8 are outside.',
+ 'C07': 'Real ThreadPoolExecutor (started with 0 OS threads; a harness thread runs the real keep_execute() worker loop): submit()/execute() of 1-2 tasks, the STOP markers of stop(), join == worker returned; every accepted task ran exactly once on a thread that reports is_running_in(), before the stopper passes its join; STUCK query on the futex-based global queue. Sequential re-entrant scenarios run the real start()/stop()/keep_execute()/keep_balance() with std::thread played by the harness: a task that spawned a child into its local queue is pre-empted while another thread stops the pool and the balance thread performs its last steal pass (local capacity 0/2, balance thread on/off, symbolic spawn): nothing accepted is lost behind the STOP tokens. Owner pop vs steal: the real worker loop on a local queue prefilled the way enqueue_task does, racing a harness thread that performs the own try_pop call of the steal loop<true,false> on it - the task runs exactly once (never moved out twice). Work stealing between 2 full workers is thorough-tier; concurrent tasks-spawning-tasks and the new-thread executor are outside.',
+ 'C11': 'Sequential mode: real babylon serialization traits + BABYLON_COMPATIBLE aggregates over the real protobuf coded-stream inline code, with a model of the out-of-line libprotobuf stream functions (harness/serial/pbmodel.cpp, validated against the real library by native replay of every witness): round trip and predicted size for ALL values of uint64 / int32+bool / nested aggregate, varint wire compatibility with a reference encoder, unknown fields of every wire type skipped, arbitrary input bytes up to 4 (terminates, no read past the input, success => re-serialises and re-parses to itself); a nested aggregate with a payload of 121..132 bytes (symbolic last field) across the one/two-byte length-prefix boundary: predicted size == bytes produced, own output parses back, following field found. The serialized bytes re-parsed through a ZeroCopyInputStream-backed CodedInputStream in symbolic chunk sizes (1..3), with and without an enclosing limit, give the same value (the stream model follows coded_stream.cc and is validated against the real library on every run). Strings, containers, smart pointers, protobuf messages, hostile stream-backed inputs outside.',
+ 'C12': 'Sequential mode on the real ReusableVector<uint64_t> over ExclusiveMonotonicBufferResource: 2-3 symbolic operations (push_back, pop_back, insert(pos), erase(pos), resize, clear, assign with symbolic positions/counts) from an empty or 3-element vector, compared after every step with a reference array; size <= constructed_size <= capacity, clear keeps capacity. Plus the re-creation the manager performs: a nested ReusableVector<ReusableVector<uint64_t>> with two inner vectors of symbolic sizes, allocation metadata recorded, a fresh instance built from it on a fresh resource (logically empty, retained capacity covers the largest recorded inner vector), the same workload repeated with no new memory taken from the resource. Strings, nested reusable elements, manager cadence outside.',
+ 'C19': 'Sequential thread generations (each generation = a new logical thread after the previous one exited and its thread_local destructors ran; natively replayed on real std::threads): adder/summer exact across thread exit and thread-id reuse, maxer/miner extreme of the period for arbitrary 64-bit inputs, local() stable, for_each vs for_each_alive, a new counter recycling a destroyed one starts from zero; a new CompactEnumerableThreadLocal instance created and used from inside the destructor wipe loop of another instance (default-constructor hook) starts from zero and keeps its contents; EnumerableThreadLocal / compact instances moved (move-assigned, rotated through a temporary) while the one-entry local() cache of the thread names one of them (symbolic): local() stays private per (thread, instance) and for_each sums match, also for a later thread generation. Concurrent counting-vs-reading outside.',
  'C20': 'Sequential mode: real LogStreamBuffer + LogEntry::append_to_iovec for every length <= 40 (page 16): scatter list == bytes written, every page once; real AsyncFileAppender write() x3 with symbolic entry lengths 0..2, stop marker, real keep_writing(): file == concatenation, pages returned. write_use_plain_writev is driven directly with 1020..1030 iovecs against a writev that rejects more than IOV_MAX; a concurrent writer thread is outside (scenarios built, not finishing, not registered).',
 }
 LEVEL_NOTE = {'C05': 'C05 additionally trusts the harness models of a few out-of-line libstdc++/abseil container functions (listed in the evidence assumptions).'}
@@ -385,6 +405,8 @@ S('ht_find', 'hashtable/ht2.cpp', {'assert': 'C03'})
 S('ht_two_keys_same_tag', 'hashtable/ht3.cpp', {'assert': 'C03'})
 S('ht_two_keys_same_tag_prefilled', 'hashtable/ht3.cpp', {'assert': 'C03'}, defs=['VF_PREFILL=3'])
 S('ht_two_keys_same_tag_lookup', 'hashtable/ht3.cpp', {'assert': 'C03'}, defs=['VF_LOOKUP=1'])
+# full table: insertion fails without consuming its argument
+S('ht_full_refuses', 'hashtable/ht_full.cpp', {'assert': 'C03'}, models=['sc'], bound=100)
 S('ht_probe_two_full_groups', 'hashtable/ht_probe.cpp', {'assert': 'C03'}, models=['sc'], bound=100, defs=['VF_FULL_GROUPS=2'])
 S('ht_probe_three_full_groups', 'hashtable/ht_probe.cpp', {'assert': 'C03'}, models=['sc'], bound=100, defs=['VF_FULL_GROUPS=3'], tiers=TH)
 # ----------------------------------------------------------------------------------------------- C20: logging
